@@ -87,6 +87,8 @@ def run(M, rec, tier, seed, k, n):
             W.closed_loop(M, rec, rng, 5, 300, before_case=on_case)
     finally:
         mon.uninstall()
+    if k == 0:
+        W.repo_tests(rec, [PROP])
 
 
 def finish(M, rec, write=True):
